@@ -102,6 +102,20 @@ def check_metrics(inp):
   if float(st_sat.weight) != (1.0 if w.any() else 0.0):
     return (f'SequenceCrossEntropyLoss on saturated logits: weight {float(st_sat.weight)}, the definition says '
             f'{1.0 if w.any() else 0.0} (targets {tg.tolist()}, masked values {mvs})')
+  # extreme magnitudes: finite logits of any size have the finite loss logsumexp(z) - z[target] (float64 reference)
+  for scale in (100.0, 1e4, 3e37):
+    big = (sc - 1.0) * scale                     # entries in {-scale, 0, scale}
+    b64 = big.astype(np.float64)
+    mx = b64.max(axis=1)
+    want_tl = np.log(np.exp(b64 - mx[:, None]).sum(axis=1)) + (mx - b64[np.arange(L), tg])   # no cancellation
+    got = float(res(M.SequenceTokenCrossEntropyLoss(masked_target_values=mvs).evaluate_example(exs, jnp.asarray(big))))
+    want = mean((want_tl * w).sum(), w.sum())
+    if not (np.isfinite(got) and abs(got - want) <= 1e-5 * max(1.0, abs(want))):
+      return (f'SequenceTokenCrossEntropyLoss on logits of magnitude {scale}: {got}, reference (float64 logsumexp) {want} '
+              f'(logits {big.tolist()}, targets {tg.tolist()})')
+    got1 = float(res(M.CrossEntropyLoss().evaluate_example({'y': jnp.asarray(int(tg[0]))}, jnp.asarray(big[0]))))
+    if not (np.isfinite(got1) and abs(got1 - want_tl[0]) <= 1e-5 * max(1.0, abs(want_tl[0]))):
+      return (f'CrossEntropyLoss on logits {big[0].tolist()} target {int(tg[0])}: {got1}, reference {want_tl[0]}')
   if float(res(M.SequenceTokenCount(masked_target_values=mvs).evaluate_example(exs, pr))) != w.sum():
     return 'SequenceTokenCount differs'
   if float(res(M.SequenceCount(masked_target_values=mvs).evaluate_example(exs, pr))) != float(w.any()):
